@@ -269,10 +269,14 @@ def fam_inflight(seed, dirs=("fwd", "rev"), fcs=("fc", "nofc")):
     out = []
     for cname, cfg in cfgs(dirs, fcs):
         for shape in ("bidi", "cstream"):
-            for ending in ("deadline", "server-deadline", "cancel", "early-return"):
+            for ending0 in ("deadline", "server-deadline", "cancel", "early-return", "deadline-buffered", "server-deadline-buffered", "cancel-buffered"):
                 for nmsg in (1, 3):
                     steps = copy.deepcopy(PREFIX)
                     new = cop(1, "new", shape=shape)
+                    # "-buffered": the data has ARRIVED (it waits in the receiver for a handler that is not reading) when the RPC ends
+                    # there: discarded, not consumed - no credit is due for it
+                    buffered = ending0.endswith("-buffered")
+                    ending = ending0.replace("-buffered", "")
                     if ending == "deadline":
                         new["timeout"] = 5000
                     if ending == "server-deadline":
@@ -281,6 +285,8 @@ def fam_inflight(seed, dirs=("fwd", "rev"), fcs=("fc", "nofc")):
                     steps += [new, dl("c2s")]                                   # the handler is invoked and idle
                     steps += [cop(9, "new", shape="bidi"), dl("c2s")]           # a bystander
                     steps += [cop(1, "send", n=40 + k) for k in range(nmsg)]    # queued in the carrier
+                    if buffered:
+                        steps += [dl("c2s") for _ in range(nmsg)] + [{"do": "drain"}]
                     if ending in ("deadline", "server-deadline"):
                         steps += [{"do": "advance", "ms": 5001}]
                     elif ending == "cancel":
@@ -293,7 +299,7 @@ def fam_inflight(seed, dirs=("fwd", "rev"), fcs=("fc", "nofc")):
                     steps += [{"do": "drain"}, cop(1, "recv", act="a"), cop(9, "send", n=7), dl("c2s"), sop(9, "recv"), sop(9, "send", n=8),
                               sop(9, "ret", code=0), {"do": "drain"}, cop(9, "recv", act="a"), cop(9, "recv", act="a")]
                     rpcs = [{"rpc": 1}, {"rpc": 9}]
-                    out.append({"name": "inflight-%s-%s-%s-%d" % (cname, shape, ending, nmsg), "cfg": dict(cfg), "steps": steps, "rpcs": rpcs,
+                    out.append({"name": "inflight-%s-%s-%s%s-%d" % (cname, shape, ending, "-buffered" if buffered else "", nmsg), "cfg": dict(cfg), "steps": steps, "rpcs": rpcs,
                                 "policy": {"kind": "eager", "seed": seed, "max": 0},
                                 "meta": {"family": "inflight", "done": []}})
     return out
@@ -318,6 +324,10 @@ def fam_misuse(seed, dirs=("fwd", "rev")):
             "hdr-after-send": ([op("new", shape="bidi"), op("send", n=5), op("half"), op("recv"), op("recv"), op("recv")],
                                [op("recv"), op("send", n=3), op("sethdr", md=MD_POOL["h1"]), op("sendhdr", md=MD_POOL["h2"]), op("send", n=4), op("ret", code=0)]),
         }
+        # a request message that cannot be encoded: the call fails, and is OVER (nothing of it stays behind in the channel)
+        variants["invoke-unencodable"] = ([op("invoke", shape="unary", n=5, opts=["badreq", "hdr", "trl"])], [op("recv"), op("ret", code=0, n=3)])
+        variants["send-unencodable"] = ([op("new", shape="bidi"), op("send", n=5, opts=["badreq"]), op("send", n=6), op("half"), op("recv"), op("recv")],
+                                        [op("recv"), op("recv"), op("send", n=3), op("ret", code=0)])
         for vname, (c, s) in variants.items():
             for pol in ("eager", "lazy"):
                 out.append(scenario("misuse-%s-%s-%s" % (vname, cname, pol), cfg, [{"rpc": 1, "c": {"m": c}, "s": {"m": s}}],
@@ -1090,6 +1100,15 @@ def fam_neg(seed, n=0, dirs=("fwd", "rev")):
         for pol in ("eager", "lazy"):
             out.append(scenario("neg-real-%s-%s" % (cname, pol), cfg, copy.deepcopy(wl), {"kind": pol, "seed": seed, "max": 600},
                                 meta={"family": "neg", "done": [1, 2, 3, 4]}))
+    # another tunnel, whose peer has flow control disabled, went through the same handler first: what it negotiated is its own,
+    # this tunnel is flow-controlled (a message larger than the window in each direction, the reader slow)
+    for cname, cfg in cfgs(dirs, ("fc",)):
+        for pol in ("eager", "slowsrv", "slowcli"):
+            c2 = dict(cfg, preTunnel="nofc")
+            big = [rpc_script(1, "bidi", [payload_for_wire(2 * W + 9), 0], [payload_for_wire(2 * W + 3)], hdrs=["h1"], trls=["t1"]),
+                   rpc_script(2, "unary_invoke", [12], resp=3)]
+            out.append(scenario("neg-after-nofc-tunnel-%s-%s" % (cname, pol), c2, big, {"kind": pol, "seed": seed, "max": 900},
+                                meta={"family": "neg", "done": [1, 2]}))
     # legacy caller (does not advertise) against the real server, with and without the server's flow control
     for d in dirs:
       for cmode in ("legacy", "off", "ON", "empty"):
@@ -1227,7 +1246,8 @@ def fam_registry(seed, n):
     for ntun in (1, 2, 3, 4):
         steps = [rstep("serve", t=t, key="k1") for t in range(1, ntun + 1)]
         steps += [rstep("rpc", via="all") for _ in range(2 * ntun + 1)] + [rstep("rpc", via="key:k1") for _ in range(2 * ntun + 1)]
-        steps += [rstep("stop", t=1)] + [rstep("rpc", via="all") for _ in range(2 * ntun)]
+        steps += [rstep("rpcseq", via="all", op=2 * ntun + 1), rstep("rpcseq", via="key:k1", op=ntun + 1)]
+        steps += [rstep("stop", t=1)] + [rstep("rpc", via="all") for _ in range(2 * ntun)] + [rstep("rpcseq", via="all", op=ntun + 1)]
         out.append({"name": "registry-roundrobin-%d" % ntun, "steps": steps, "meta": {"family": "registry"}})
     # (4) a caller waits for readiness while the last tunnel is being cleaned up (its unregistration, the close
     # callback, the handler's own redundant removals), then a new tunnel opens: the waiter must wake
@@ -1285,6 +1305,15 @@ def fam_registry(seed, n):
             if first == "gstop":
                 steps += [rstep("stop", t=1), rstep("rpc", via="all")]
             out.append({"name": "registry-rts-%s-%d" % (first, pre), "steps": steps, "meta": {"family": "registry"}})
+    # (7) tunnels that negotiate differently on one handler: a serving end without flow control (revision zero) first
+    # (still open, or gone again), then ordinary ones, then another one without, with RPCs through all of them
+    for gone in (False, True):
+        steps = [rstep("serve", t=1, key="k1", nofc=True), rstep("rpc", via="all")]
+        if gone:
+            steps += [rstep("stop", t=1)]
+        steps += [rstep("serve", t=2, key="k1"), rstep("serve", t=3, key="k2"), rstep("rpc", via="all"), rstep("rpc", via="key:k2"),
+                  rstep("serve", t=4, key="", nofc=True), rstep("serve", t=5, key="k1")] + [rstep("rpc", via="all") for _ in range(5)] + [rstep("rpcseq", via="all", op=6)]
+        out.append({"name": "registry-mixed-revisions-%s" % ("gone" if gone else "open"), "steps": steps, "meta": {"family": "registry"}})
     # (6) a Serve refused during / after shutdown must not keep GracefulStop or Stop from returning:
     # the tunnel ends (from either side) after the refused Serve, then everything must have returned
     for end in ("close", "fail", "ctxcancel"):
